@@ -5,6 +5,22 @@ HERE = os.path.dirname(os.path.dirname(os.path.abspath(__file__)))
 ALL = ['C%02d' % i for i in range(1, 21)]
 
 CHECKS = {
+ 'C03': dict(cat='model_checking', engine='mirsym',
+   text='The real read_inner of every login and world message is executed symbolically on (i) fully symbolic bodies of sizes its guard accepts and (ii) canonical prefixes followed by symbolic suffixes at field boundaries, with monitors for panics, failed overflow checks, unwrap/expect, unreachable code and allocation requests that can exceed 16 MiB under the path condition (count symbolic). Exploration is concolic with a stated path cap; every monitored path is solved for concrete bytes and replayed through the public readers of the native dev and release builds with a counting allocator.',
+   note='Bounded exploration (path cap per query, buffer lengths as stated): the absence of a report is a claim about the explored paths only. zlib payloads (flate2) and UpdateMask members are outside the encoding. Header-level parsing is covered by C02-C. Recorded findings: allocation requests within the wire-size guard but far above the frame size, AddonArray reader panic.',
+   technique='symbolic execution of rustc MIR into SMT (z3) with panic/allocation monitors, concolic coverage', ref='DESIGN.md 4/C03'),
+ 'C05': dict(cat='model_checking', engine='kani+mirsym',
+   text='(a) Kani/CBMC on the real wow_srp header ciphers from an ARBITRARY cipher state: decrypt(encrypt(x)) == x, both halves stay in step, untouched bytes stay untouched (Vanilla, TBC; Wrath RC4 keystream involution and data-independence of the state) - one inductive step that covers every session key and every position in a stream. (b) MIRSYM on the plumbing: encrypted writers and decrypting readers/expect helpers of all three expansions with the raw cipher cut to an invertible position-indexed byte transformer; body length, plaintext header and cipher position symbolic: ciphertext = plaintext with exactly the header bytes transformed in order, readers decrypt exactly the header (4 or 5 bytes for Wrath server headers, decided from the decrypted first byte) and consume exactly the announced body.',
+   note='(a) halves are built by transmuting arbitrary bytes of their full size (layout asserted by size); slice lengths <= 6. (b) stubs: the raw cipher, size_without_header/write_into_vec of the representative message, read_opcodes/read_body. (a)+(b)+C02 compose by induction over the message sequence. Quick tier proves the Wrath step for the 5-byte header length only; thorough for every length <= 5.',
+   technique='bounded model checking (Kani/CBMC) of the real cipher + symbolic execution of rustc MIR (z3) of the plumbing', ref='DESIGN.md 4/C05'),
+ 'C06': dict(cat='model_checking', engine='mirsym',
+   text='The coroutine state machines rustc generates for the tokio_/astd_ readers of every login message (three separately generated copies per message) are executed from their MIR against a scripted transport (every sequence of Pending / 1-byte / 2-byte / everything deliveries up to the bound, plus byte-at-a-time delivery) and compared, path by path and for all byte values (z3), with the blocking reader on the same symbolic input: canonical encodings, truncations (same UnexpectedEof) and arbitrary bytes (same error kind).',
+   note='read_exact futures (tokio ReadExact / ReadU32Le..., async-std ReadExactFuture) are modelled from their documented contract; everything else (async primitive readers, tokio_read_inner/astd_read_inner, expect helpers, Box<dyn Future> dispatch) is the real code. World async header readers are not re-executed (same text as the sync ones of C02-C); write variants share write_into_vec (C01).',
+   technique='symbolic execution of rustc MIR coroutines into SMT (z3) under enumerated transport schedules', ref='DESIGN.md 4/C06'),
+ 'C14': dict(cat='model_checking', engine='mirsym',
+   text='For each of the 15 collective login message families and each older protocol version, the hand-written conversion layer is executed through the public protocol-parameterised API on the canonical encodings of that version\'s message with all field values symbolic: z3 decides that to_version_N(read_protocol(B, N)) equals the value version N\'s own codec decodes and that write_protocol(read_protocol(B, N), N) reproduces B.',
+   note='Shapes as C01 with a smaller cap; flags restricted to the bits version N declares; version N\'s codec is tied to the wowm by C01.',
+   technique='symbolic execution of rustc MIR into SMT (z3), value/byte equivalence per shape', ref='DESIGN.md 4/C14'),
  'C02': dict(cat='model_checking', engine='mirsym',
    text='A: declared size == bytes written for every message and covered shape (MIR of size()/write_into_vec on symbolic values). B: the real default write_unencrypted_{server,client} bodies and header helpers of all three expansions are executed with the body length a symbolic u32 (body summarised as "exactly s bytes"): z3 decides, for every body length the header form can express at once, that writing does not abort and the header equals the specification (2-byte / Wrath 3-byte form, opcode, endianness). C: every sync reader entry (opcode-enum readers and typed expect helpers, 3 expansions x 2 directions) is executed on an abstract stream with symbolic header bytes and a symbolic-length body buffer: consumed bytes == size-field width + size-field value, opcode and body size handed on are the header\'s. A, B and C are the induction step for aligned streams of any length.',
    note='B/C stubs: size_without_header()/write_into_vec of the representative message (SMSG/CMSG_WARDEN_DATA), read_opcodes / read_body, opcode_to_name. Overridden writers of compressed messages, async variants (C06) and encrypted variants (C05) are outside. The u16 overflow of the total frame length for the two largest bodies is a recorded finding.',
@@ -76,9 +92,9 @@ def main():
             'add_only': True,
         },
         'engines': [
-            {'name': 'mirsym', 'path': 'vf/mirsym.py', 'serves_properties': [p for p in ALL if CHECKS.get(p, {}).get('engine') == 'mirsym'],
+            {'name': 'mirsym', 'path': 'vf/mirsym.py', 'serves_properties': [p for p in ALL if 'mirsym' in CHECKS.get(p, {}).get('engine', '')],
              'kind_free_text': 'symbolic executor for rustc\'s monomorphised MIR (dumped by tools/mirdump, a rustc_public driver built with the nightly toolchain) producing z3 bit-vector queries; std containers modelled at API level (vf/models.py); independent wowm reader (vf/wowm.py) as the oracle; counterexamples replayed on native builds'},
-            {'name': 'kani', 'path': 'vf/kani.py', 'serves_properties': [p for p in ALL if CHECKS.get(p, {}).get('engine') == 'kani'],
+            {'name': 'kani', 'path': 'vf/kani.py', 'serves_properties': [p for p in ALL if 'kani' in CHECKS.get(p, {}).get('engine', '')],
              'kind_free_text': 'Kani 0.68 / CBMC 6.11 over the compiled crates; harness crates generated under work/ with path dependencies on /repo'},
         ],
         'checks': checks,
